@@ -68,3 +68,10 @@ func VerifSlotsReport() (errs []string, accesses, maxSlot, maxFrame, frames int)
 	s := &encoder.VerifSlots
 	return append([]string(nil), s.Errs...), s.Accesses, s.MaxSlot, s.MaxFrame, s.Frames
 }
+
+// VerifPoisonPools makes every pooled encoder / decoder context and map context go back to its pool
+// filled with junk.
+func VerifPoisonPools(on bool) {
+	encoder.VerifPoison = on
+	decoder.VerifPoison = on
+}
